@@ -27,7 +27,11 @@ func ZZ_C14_alias_um(a []int) {
 
 // ZZ_C14_alias_s: the same on the body of a valid frame of shape a.
 func ZZ_C14_alias_s(a []int) {
-	abs := zzGen(zzShapeOf(a))
+	sh := zzShapeOf(a)
+	if sh.typ == 3 {
+		sh.qos = 0 // UnmarshalBinary on a zero Publish expects a QoS 0 body
+	}
+	abs := zzGen(sh)
 	body := zzRefBody(abs)
 	q := zzNew(abs.typ)
 	err := q.UnmarshalBinary(body)
@@ -56,11 +60,13 @@ func ZZ_C14_alias_rp(a []int) {
 	zzViewEq(zzSnap(q), s, "reusing the read buffer changes the packet")
 }
 
-// ZZ_C14_interf: decode A -> q1, decode B -> q2 (both of the given shape,
+// ZZ_C14_interf: a[0] = which setter, a[1:] = shape. Decode A -> q1, decode B -> q2 (both of the given shape,
 // independent values); every setter on q1, WriteTo, String, Dump of q1 must
 // leave q2 unchanged and write no package-level state; decoding A again gives
 // the same packet as the first time.
 func ZZ_C14_interf(a []int) {
+	only := a[0] // setter to apply (-1: all of them, one after the other)
+	a = a[1:]
 	sh := zzShapeOf(a)
 	absA := zzGen2(sh, "A.")
 	absB := zzGen2(sh, "B.")
@@ -75,7 +81,9 @@ func ZZ_C14_interf(a []int) {
 	s2 := zzSnap(q2)
 	model := *absA
 	for k := 0; k < zzSetterCount(sh.typ); k++ {
-		zzApplySetter(q1, &model, k, 1, "m"+zzItoa(k)+".")
+		if only < 0 || only == k {
+			zzApplySetter(q1, &model, k, 1, "m"+zzItoa(k)+".")
+		}
 	}
 	var w zzSink
 	q1.WriteTo(&w)
